@@ -73,6 +73,7 @@ func moreFacts(b *strings.Builder, root *pkgFiles, repo string) {
 	trackerFacts(b, repo)
 	lockFacts(b, repo)
 	idpFacts(b, root)
+	spFacts(b, root)
 }
 
 // dsigConstants resolves the string constants of the goxmldsig module the repository builds against.
